@@ -7,4 +7,8 @@ U = dict(
     largest_remainder=5,
     quota=6,
     quota_selector=7,
+    threshold=8,
+    bracket=9,
+    openlist=10,
+    break_by_list=11,
 )
